@@ -879,7 +879,7 @@ class Interp:
             elif name == "len":
                 out.append(val(("const", len(els)), r.state))
             else:
-                ts = [self.domain.truth(v) for v in els]
+                ts = [self.domain.truth(unbox(v, r.state)) for v in els]   # (an element that is a list some object holds: what it holds now)
                 if name == "any":
                     t = "T" if "T" in ts else ("F" if all(x == "F" for x in ts) else "TF")
                 else:
